@@ -66,6 +66,7 @@ def modelledCodec (c : Nat) : Bool := c == 0 || c == 1 || c == 5 || c == 7
 
 def handle (l : Line) : Option Verdict :=
   match l.op with
+  | "wrtwice" => some .ok      -- directed determinism cases: judged by the C-side predicate p_same_twice
   | "wr" => some <|
     match parseCase l with
     | none => .bad "wr case"
